@@ -1510,7 +1510,7 @@ def gen_cases(tier, rng):
     keys = sorted(reg)
     fast = [k for k in keys if not reg[k]["slow"]]
     slow = [k for k in keys if reg[k]["slow"]]
-    reps = 4 if tier == "quick" else 30
+    reps = 4 if tier == "quick" else 50
     rot = rng.randrange(1000)
     for k in fast:
         ps = reg[k]["params"]
@@ -1518,7 +1518,7 @@ def gen_cases(tier, rng):
             # parameter sets are cycled (seed-rotated), ragged-capable estimators get a ragged panel every other case
             cases.append(gen_meta(rng, k, tier, p=ps[(rot + r) % len(ps)], ragged=(r % 2 == 0)))
     for k in slow:
-        for _ in range(2 if tier == "quick" else 10):
+        for _ in range(2 if tier == "quick" else 16):
             cases.append(gen_meta(rng, k, tier))
     # malformed stream: empty selection, multivariate data to a univariate-only estimator
     mal = rng.sample(fast, 8 if tier == "quick" else 24)
